@@ -283,6 +283,7 @@ package config
 //@   loop 0: invariant#only forall i int :: 0 <= i && i < len(packages) ==> (packages[i] in c.Packages)
 //@   loop 0: invariant#all forall k string :: (k in c.Packages) && $visited[k] ==> (exists i int :: 0 <= i && i < len(packages) && packages[i] == k)
 //@   loop 0: invariant#empty (forall k string :: !$visited[k]) ==> len(packages) == 0
+//@   maprange c.Packages: order_assumed the result lists the configured packages in map order and is not sorted; its only consumers are RootApp.Run's loop that fills missingMap (cells indexed by the package) and ParsePackages, whose pattern order changes the order in which packages are visited but not the interfaces found per package; every output file holds interfaces of one source package only (InterfaceCollection.Append), so the bytes written do not depend on it. This argument is not checked.
 //@   assigns nothing
 
 // A listed interface gets its own (merged) configuration; an unlisted one a private deep copy of the
